@@ -119,7 +119,7 @@ def l2(draw, allow_snap=True):
 
 def ipv4(**kw):
   opts = st.one_of(st.just(b""), st.just(b""), st.integers(1, 10).flatmap(lambda n: st.binary(min_size=4 * n, max_size=4 * n)))
-  d = {"t": st.just("ipv4"), "tos": u(8), "id": u(16), "flags": st.sampled_from([0, 2, 0, 2, 4, 6]), "frag": st.just(0),
+  d = {"t": st.just("ipv4"), "tos": u(8), "id": u(16), "flags": st.one_of(st.sampled_from([0, 2]), st.integers(0, 7)), "frag": st.just(0),
        "ttl": u(8), "src": ip4, "dst": ip4, "opts": opts}
   d.update(kw)
   return st.fixed_dictionaries(d)
@@ -129,7 +129,8 @@ def _ext_header():
   normal = st.tuples(st.sampled_from([0, 43, 60]), blen(0, 255, small=3), st.integers(0, 6)).map(
       lambda t: {"k": t[0], "body": P.pattern(6 + 8 * t[1], t[2])})
   # fragment header with offset 0 and M=0 (an unfragmented datagram: the upper layer is still parseable)
-  frag = st.binary(min_size=4, max_size=4).map(lambda ident: {"k": 44, "body": b"\0\0\0" + ident})
+  frag = st.tuples(u(8), st.integers(0, 7), st.binary(min_size=4, max_size=4)).map(
+      lambda t: {"k": 44, "body": bytes([t[0], 0, t[1]]) + t[2]})
   return st.one_of(normal, normal, frag)
 
 
@@ -260,8 +261,9 @@ def _uniq_codes(opts):
 
 def dhcp():
   return st.fixed_dictionaries({
-    "t": st.just("dhcp"), "op": st.sampled_from([1, 2]), "htype": st.just(1), "hlen": st.just(6), "hops": u(8), "xid": u(32),
-    "secs": u(16), "flags": st.sampled_from([0, 0x8000]), "ci": ip4, "yi": ip4, "si": ip4, "gi": ip4, "chaddr": mac,
+    "t": st.just("dhcp"), "op": st.one_of(st.sampled_from([1, 2]), u(8)), "htype": st.one_of(st.just(1), u(8)),
+    "hlen": st.sampled_from([6, 6, 6, 0, 1, 8, 16]), "hops": u(8), "xid": u(32),
+    "secs": u(16), "flags": st.one_of(st.sampled_from([0, 0x8000]), u(16)), "ci": ip4, "yi": ip4, "si": ip4, "gi": ip4, "chaddr": nbytes(16),
     "sname": st.one_of(st.just(b""), st.binary(max_size=63), st.sampled_from([b"s" * 63, b"s" * 64])),
     "file": st.one_of(st.just(b""), st.binary(max_size=127), st.sampled_from([b"f" * 127, b"f" * 128])),
     "opts": st.lists(_dhcp_opt(), max_size=6).map(_uniq_codes)})
@@ -269,7 +271,7 @@ def dhcp():
 
 def rip():
   e = st.fixed_dictionaries({"af": st.sampled_from([2, 0, 0xffff]), "tag": u(16), "ip": ip4, "mask": ip4, "nh": ip4, "metric": u(32)})
-  return st.fixed_dictionaries({"t": st.just("rip"), "cmd": st.sampled_from([1, 2]), "ver": st.sampled_from([1, 2]),
+  return st.fixed_dictionaries({"t": st.just("rip"), "cmd": st.one_of(st.sampled_from([1, 2]), u(8)), "ver": st.one_of(st.sampled_from([1, 2]), u(8)),
                                 "entries": st.one_of(st.lists(e, min_size=1, max_size=5), st.lists(e, min_size=24, max_size=25))})
 
 
@@ -310,6 +312,11 @@ _nd_opts = st.one_of(st.lists(_nd_opt(), max_size=3), st.lists(_nd_opt(), max_si
 def nd():
   """(icmp6 record, message record)"""
   b = st.booleans()
+  return st.tuples(st.one_of(st.just(0), u(8)), _nd_messages()).map(lambda t: [dict(t[1][0], code=t[0]), t[1][1]])
+
+
+def _nd_messages():
+  b = st.booleans()
   return st.one_of(
     _nd_opts.map(lambda o: [{"t": "icmp6", "type": 133, "code": 0}, {"t": "nd_rs", "opts": o}]),
     st.tuples(u(8), b, b, u(16), u(32), u(32), _nd_opts).map(lambda t: [{"t": "icmp6", "type": 134, "code": 0}, {
@@ -337,9 +344,16 @@ def gre(**kw):
   sre = st.tuples(st.integers(1, 0xffff), u(8), pbytes(1, 255, small=16)).map(list)
   d = {"t": st.just("gre"), "csum": st.sampled_from([None, None, "auto"]), "key": st.one_of(st.none(), u(32)),
        "seq": st.one_of(st.none(), u(32)), "ssr": st.booleans(), "rec": st.integers(0, 7),
-       "routing": st.one_of(st.none(), st.none(), st.lists(sre, max_size=2))}
+       "routing": st.one_of(st.none(), st.none(), st.lists(sre, max_size=2)), "route_offset": st.one_of(st.just(0), u(16))}
   d.update(kw)
-  return st.fixed_dictionaries(d)
+  return st.fixed_dictionaries(d).map(_gre_offset_word)
+
+
+def _gre_offset_word(r):
+  # the offset shares a 32-bit word with the checksum; the word exists when either the C or the R bit is set
+  if r.get("csum") is None and r.get("routing") is None:
+    r = dict(r, route_offset=0)
+  return r
 
 
 def mpls_stack():
@@ -388,14 +402,14 @@ def shapes(maxpay=1500):
     "arp": _cat(l2(), arp, st.just({"t": "raw", "len": 0, "pat": 0, "fixed": True})),
     "arp-padded": _cat(l2(allow_snap=False), arp, raw(1, 18)),
     "ipv4-raw": _cat(l2(), ipv4(proto=_free_proto4()), R()),
-    "ipv4-frag": _cat(l2(), ipv4(proto=u(8), flags=st.sampled_from([0, 1, 3]), frag=st.integers(1, 0x1fff)), R()),
+    "ipv4-frag": _cat(l2(), ipv4(proto=u(8), flags=st.integers(0, 7), frag=st.one_of(st.sampled_from([1, 0x1fff]), st.integers(1, 0x1fff))), R()),
     "ipv4-udp": _cat(l2(), ipv4(), udp(), R()),
     "ipv4-tcp": _cat(l2(), ipv4(), tcp(), R()),
-    "ipv4-icmp-echo": _cat(l2(), ipv4(), st.sampled_from([0, 8]).map(lambda t: {"t": "icmp", "type": t, "code": 0}),
+    "ipv4-icmp-echo": _cat(l2(), ipv4(), st.tuples(st.sampled_from([0, 8]), st.one_of(st.just(0), u(8))).map(lambda t: {"t": "icmp", "type": t[0], "code": t[1]}),
                            st.fixed_dictionaries({"t": st.just("echo"), "id": u(16), "seq": u(16)}), R()),
     "ipv4-icmp-unreach": _cat(l2(), ipv4(), u(8).map(lambda c: {"t": "icmp", "type": 3, "code": c}),
                               st.fixed_dictionaries({"t": st.just("unreach"), "unused": u(16), "mtu": u(16)}), _embedded4()),
-    "ipv4-icmp-timex": _cat(l2(), ipv4(), st.integers(0, 1).map(lambda c: {"t": "icmp", "type": 11, "code": c}),
+    "ipv4-icmp-timex": _cat(l2(), ipv4(), st.one_of(st.integers(0, 1), u(8)).map(lambda c: {"t": "icmp", "type": 11, "code": c}),
                             st.fixed_dictionaries({"t": st.just("timex"), "unused": u(32)}), _embedded4()),
     "ipv4-icmp-other": _cat(l2(), ipv4(), st.tuples(icmp_other, u(8)).map(lambda t: {"t": "icmp", "type": t[0], "code": t[1]}), R()),
     "ipv4-igmp": _cat(l2(), ipv4(), igmp()),
@@ -411,12 +425,12 @@ def shapes(maxpay=1500):
     "ipv6-udp": _cat(l2(), ipv6(), udp(), R()),
     "ipv6-tcp": _cat(l2(), ipv6(), tcp(), R()),
     "ipv6-udp-dns": _cat(l2(), ipv6(), udp(free=False), dns()),
-    "ipv6-icmp6-echo": _cat(l2(), ipv6(), st.sampled_from([128, 129]).map(lambda t: {"t": "icmp6", "type": t, "code": 0}),
+    "ipv6-icmp6-echo": _cat(l2(), ipv6(), st.tuples(st.sampled_from([128, 129]), st.one_of(st.just(0), u(8))).map(lambda t: {"t": "icmp6", "type": t[0], "code": t[1]}),
                             st.fixed_dictionaries({"t": st.just("echo6"), "id": u(16), "seq": u(16)}), R()),
     "ipv6-icmp6-nd": _cat(l2(), ipv6(), nd()),
-    "ipv6-icmp6-toobig": _cat(l2(), ipv6(), st.just({"t": "icmp6", "type": 2, "code": 0}), u(32).map(lambda m: {"t": "toobig", "mtu": m}), raw(0, min(maxpay, 1200))),
-    "ipv6-icmp6-timex": _cat(l2(), ipv6(), st.integers(0, 1).map(lambda c: {"t": "icmp6", "type": 3, "code": c}), st.just({"t": "timex6"}), raw(0, min(maxpay, 1200))),
-    "ipv6-icmp6-unreach": _cat(l2(), ipv6(), st.integers(0, 7).map(lambda c: {"t": "icmp6", "type": 1, "code": c}),
+    "ipv6-icmp6-toobig": _cat(l2(), ipv6(), st.one_of(st.just(0), u(8)).map(lambda c: {"t": "icmp6", "type": 2, "code": c}), u(32).map(lambda m: {"t": "toobig", "mtu": m}), raw(0, min(maxpay, 1200))),
+    "ipv6-icmp6-timex": _cat(l2(), ipv6(), st.one_of(st.integers(0, 1), u(8)).map(lambda c: {"t": "icmp6", "type": 3, "code": c}), st.just({"t": "timex6"}), raw(0, min(maxpay, 1200))),
+    "ipv6-icmp6-unreach": _cat(l2(), ipv6(), st.one_of(st.integers(0, 7), u(8)).map(lambda c: {"t": "icmp6", "type": 1, "code": c}),
                                u(32).map(lambda m: {"t": "unreach6", "unused": m}),
                                st.one_of(raw(0, 39).map(lambda r: [r]), _cat(ipv6(ext=st.just([])), udp(), raw(0, 32)))),
     "ipv6-icmp6-other": _cat(l2(), ipv6(), st.tuples(icmp6_other, u(8)).map(lambda t: {"t": "icmp6", "type": t[0], "code": t[1]}), R()),
